@@ -14,6 +14,10 @@ pub struct Mon {
 }
 
 impl Monitor for Mon {
+    fn begin(&mut self, w: &mut World, _out: &mut Outcome) {
+        // PayFunding takes no payment: coins a caller attaches anyway must stay with the caller or the protocol's own accounts
+        w.stray_funding_coins = true;
+    }
     fn after(&mut self, w: &World, s: &Step, out: &mut Outcome) -> Option<Violation> {
         if matches!(s.act, Act::NextBlock { .. }) {
             return None;
@@ -104,6 +108,8 @@ impl Monitor for Mon {
 
 pub fn prop() -> HistProp {
     let mut w = Weights::trading();
+    // funding drains: the oracle is set so that the next settlement consumes about half / all / several times a holder's margin
+    w.drain = 3;
     w.ecfg = 2;
     w.vcfg = 2;
     w.rewire = 2;
